@@ -252,6 +252,13 @@ def draw_case(rng: numpy.random.Generator, force: Optional[dict] = None, thoroug
             if ok: break
         if system is None:                                  # no -s: the table itself carries every non-zero component
             names, tab = fnames, ftab
+        elif force.get("full21") or (("full21" not in force) and rng.random() < 0.15):
+            # -s SYSTEM on a table that already lists all 21 components (vanishing ones as zero columns): the system is still
+            # applied — same result as on the independent components alone, vanishing components omitted
+            allk = [f"c{i}{j}" for i in range(1, 7) for j in range(i, 7)]
+            full = numpy.zeros((nv2, 21))
+            for c, n in enumerate(fnames): full[:, allk.index(n)] = ftab[:, c]
+            names, tab = allk, full
         perm = rng.permutation(len(names))
         names = [names[i] for i in perm]; tab = tab[:, perm]
         style = rng.random()
@@ -712,6 +719,7 @@ def plan(ctx: Ctx, n: int) -> List[dict]:
         forced.append({"interp": ["none", "volume", "pressure"][i % 3], "table": True, "system": s, "ntv": [11, 21, 33][i % 3]})
     forced.append({"interp": "pressure", "table": True, "system": None, "ntv": 401, "sample": True, "sample_m": 10})
     forced.append({"interp": "volume", "table": True, "system": "cubic", "ntv": 101})
+    forced.append({"interp": ["none", "volume", "pressure"][ctx.seed % 3], "table": True, "system": SYSTEMS[1 + ctx.seed % 8], "ntv": 21, "full21": True})
     forced.append({"interp": "none", "table": True, "system": None, "ntv": 401, "cellmass": 123.456})
     forced.append({"interp": "pressure", "table": True, "system": "hexagonal", "ntv": 31, "sample": True, "sample_m": 3, "cellmass": 77.7})
     forced.append({"interp": "volume", "table": False, "system": None, "ntv": 11, "cellmass": 55.5})
